@@ -84,11 +84,11 @@ func merge(fieldPath string, destination, lastApplied, desired interface{}) (int
 		// destination is an object.
 		// Make sure the others are objects too (or null).
 		lastVal, ok := lastApplied.(map[string]interface{})
-		if !ok && lastVal != nil {
+		if !ok && lastApplied != nil {
 			return nil, fmt.Errorf("lastApplied%s: expecting map[string]interface, got %T", fieldPath, lastApplied)
 		}
 		desVal, ok := desired.(map[string]interface{})
-		if !ok && desVal != nil {
+		if !ok && desired != nil {
 			return nil, fmt.Errorf("desired%s: expecting map[string]interface, got %T", fieldPath, desired)
 		}
 		return mergeObject(fieldPath, destVal, lastVal, desVal)
@@ -96,11 +96,11 @@ func merge(fieldPath string, destination, lastApplied, desired interface{}) (int
 		// destination is an array.
 		// Make sure the others are arrays too (or null).
 		lastVal, ok := lastApplied.([]interface{})
-		if !ok && lastVal != nil {
+		if !ok && lastApplied != nil {
 			return nil, fmt.Errorf("lastApplied%s: expecting []interface, got %T", fieldPath, lastApplied)
 		}
 		desVal, ok := desired.([]interface{})
-		if !ok && desVal != nil {
+		if !ok && desired != nil {
 			return nil, fmt.Errorf("desired%s: expecting []interface, got %T", fieldPath, desired)
 		}
 		return mergeArray(fieldPath, destVal, lastVal, desVal)
